@@ -15,6 +15,7 @@
 #include <tbox/util/string.h>
 #include <tbox/util/scalable_integer.h>
 #include <tbox/util/serializer.h>
+#include <tbox/util/checksum.h>
 #include <tbox/http/url.h>
 #include <tbox/crypto/md5.h>
 
@@ -28,14 +29,15 @@ namespace tstr = tbox::util::string;
 
 namespace {
 
-enum { T_B64, T_HEX, T_SINT, T_URL, T_DES, T_MD5, T_RT, T_COUNT };
-const char *kTarget[T_COUNT] = {"base64_decode", "hex_decode", "scalable_parse", "url_decode", "deserializer", "md5_split", "roundtrip"};
+enum { T_B64, T_HEX, T_SINT, T_URL, T_DES, T_MD5, T_RT, T_SUM, T_COUNT };
+const char *kTarget[T_COUNT] = {"base64_decode", "hex_decode", "scalable_parse", "url_decode", "deserializer", "md5_split", "roundtrip", "checksum_large"};
 
 struct Shared {           // counters shared between the session children and the framing parent
     uint64_t execs[T_COUNT];
     uint64_t accepted[T_COUNT];
     uint64_t refused[T_COUNT];
     uint64_t high_byte_inputs;
+    uint64_t sum16_wraps;
 };
 Shared *g_sh = nullptr;
 
@@ -240,6 +242,31 @@ void t_roundtrip(const std::string &x, unsigned sel) {
     ++g_sh->accepted[T_RT];
 }
 
+// 8/16-bit ones'-complement sums of the input repeated to a chosen size (mostly small, for one selector value in 32: 64..400 KiB) against the
+// RFC 1071 sum done in a 64-bit accumulator and folded at the end
+void t_sum(const std::string &block, unsigned sel) {
+    if (block.empty()) return;
+    static const size_t big[] = {65535, 65537, 131074, 131075, 131076, 262144, 262146, 400001};
+    size_t n = (sel % 32 == 0) ? big[(sel / 32) % 8] : (size_t)sel * 9 + block.size();
+    std::string data(n, '\0');
+    for (size_t i = 0; i < n; ++i) data[i] = block[i % block.size()];
+    In in(data);
+    uint64_t ws = 0, bs = 0;
+    for (size_t i = 0; i + 1 < n; i += 2) ws += ((unsigned)(uint8_t)data[i] << 8) | (uint8_t)data[i + 1];
+    if (n & 1) ws += (unsigned)(uint8_t)data[n - 1] << 8;
+    for (size_t i = 0; i < n; ++i) bs += (uint8_t)data[i];
+    if (ws >> 32) ++g_sh->sum16_wraps;
+    uint64_t f16 = ws; while (f16 >> 16) f16 = (f16 & 0xffff) + (f16 >> 16);
+    uint64_t f8 = bs; while (f8 >> 8) f8 = (f8 & 0xff) + (f8 >> 8);
+    step("CalcCheckSum16/8 of %zu bytes, block %s", n, vh::hex(block).substr(0, 80).c_str());
+    unsigned g16 = tbox::util::CalcCheckSum16(in.p, n), g8 = tbox::util::CalcCheckSum8(in.p, n);
+    VH_CHECK(g16 == ((~f16) & 0xffff), "fuzz/checksum16/wrong", "CalcCheckSum16(%zu bytes, block %s)=0x%04x, wide-accumulator sum gives 0x%04x (word sum %llu)",
+             n, vh::hex(block).substr(0, 80).c_str(), g16, (unsigned)((~f16) & 0xffff), (unsigned long long)ws);
+    VH_CHECK(g8 == ((~f8) & 0xff), "fuzz/checksum8/wrong", "CalcCheckSum8(%zu bytes, block %s)=0x%02x, wide-accumulator sum gives 0x%02x",
+             n, vh::hex(block).substr(0, 80).c_str(), g8, (unsigned)((~f8) & 0xff));
+    ++g_sh->accepted[T_SUM];
+}
+
 }  // namespace
 
 extern "C" int LLVMFuzzerTestOneInput(const uint8_t *data, size_t size) {
@@ -256,6 +283,7 @@ extern "C" int LLVMFuzzerTestOneInput(const uint8_t *data, size_t size) {
         case T_URL: t_url(body); break;
         case T_DES: t_des(body); break;
         case T_MD5: t_md5(body); break;
+        case T_SUM: t_sum(body, sel); break;
         default: t_roundtrip(body, sel); break;
     }
     return 0;
@@ -315,6 +343,7 @@ extern "C" int LLVMFuzzerInitialize(int *argc, char ***argv) {
     }
     vh::counter("fuzz_execs", total);
     vh::counter("fuzz_inputs_with_byte_ge_0x80", g_sh->high_byte_inputs);
+    vh::counter("fuzz_sum16_word_sum_exceeds_2p32", g_sh->sum16_wraps);
     vh::counter("fuzz_sessions", vh::st().cases);
     vh::finish();
     fflush(stdout);
